@@ -173,10 +173,12 @@ func keySort(t types.Type) *Sort {
 }
 
 // Heap component names.
-func compField(structT types.Type, suffix string) string { return "H|" + typeKey(structT) + "|" + suffix }
-func compCell(t types.Type, suffix string) string        { return "C|" + typeKey(t) + "|" + suffix }
-func compElem(t types.Type, suffix string) string        { return "E|" + typeKey(t) + "|" + suffix }
-func compMapDom(m types.Type) string                     { return "Md|" + typeKey(m) }
-func compMapVal(m types.Type, suffix string) string      { return "Mv|" + typeKey(m) + "|" + suffix }
-func compMapSize(m types.Type) string                    { return "Ms|" + typeKey(m) }
-func compGlobal(name, suffix string) string              { return "G|" + name + "|" + suffix }
+func compField(structT types.Type, suffix string) string {
+	return "H|" + typeKey(structT) + "|" + suffix
+}
+func compCell(t types.Type, suffix string) string   { return "C|" + typeKey(t) + "|" + suffix }
+func compElem(t types.Type, suffix string) string   { return "E|" + typeKey(t) + "|" + suffix }
+func compMapDom(m types.Type) string                { return "Md|" + typeKey(m) }
+func compMapVal(m types.Type, suffix string) string { return "Mv|" + typeKey(m) + "|" + suffix }
+func compMapSize(m types.Type) string               { return "Ms|" + typeKey(m) }
+func compGlobal(name, suffix string) string         { return "G|" + name + "|" + suffix }
